@@ -1,11 +1,148 @@
 import NmVerif.Containers.Core
 import NmVerif.Containers.Spec
 import NmVerif.Containers.Vector
+import NmVerif.Containers.VectorProofs
+import NmVerif.Containers.VectorLedger
+/-
+  C19 — The STL-free containers behave like their standard counterparts over any history.
+  Property statements only (+ non-vacuity examples, counterexample theorems for the defects of the unchanged tree).
+  Histories are `List (Op α)` over any number of object slots, starting from the empty world.
+-/
 namespace NmVerif.Props.C19
 open NmVerif NmVerif.Containers
 
-/-- operations on other slots leave an object untouched -/
-theorem frame (I : Impl σ α) (w : World σ) (h : List (Op α)) (k : Nat) (hk : ∀ op ∈ h, op.target ≠ k) :
-    (run I w h).objs k = w.objs k := run_frame I w h k hk
+/-! ### generic: copies are independent of their source -/
+
+/-- after `copy d s`, whatever is done to the source or to any other object, the copy stays what the copy
+    constructor built (for every container semantics) -/
+theorem copy_independent (I : Impl σ α) (w : World σ) (d s : Nat) (x : σ) (hd : w.objs d = none)
+    (hs : w.objs s = some x) (h : List (Op α)) (hh : ∀ op ∈ h, op.target ≠ d) :
+    (run I (step I w (.copy d s)) h).objs d = some (I.mkCopy x w.led).1 := by
+  rw [run_frame I _ h d hh]
+  simp [step, hd, hs, World.put]
+
+/-- … and mutating the copy never changes the source -/
+theorem copy_source_untouched (I : Impl σ α) (w : World σ) (d s : Nat) (hds : d ≠ s)
+    (h : List (Op α)) (hh : ∀ op ∈ h, op.target = d) :
+    (run I (step I w (.copy d s)) h).objs s = w.objs s := by
+  rw [run_frame I _ h s (fun op ho => by rw [hh op ho]; exact hds)]
+  exact step_frame I w _ s (by simpa [Op.target] using hds)
+
+/-! ### utl::vector -/
+
+/-- `utl::vector` holds exactly what `std::vector` holds after every history that constructs sized vectors
+    only with N = 0, resizes only down to at most the current size and never pushes an aliasing argument
+    (`vecOk`); liveness of every slot agrees too (`WRel`/`ORel`). -/
+theorem vector_refines_list (zero : α) (h : List (Op α))
+    (hok : AllOk (stdSpec zero) vecOk World.empty h) :
+    WRel RVec (run (vecImpl α) World.empty h) (run (stdSpec zero) World.empty h) :=
+  run_sim (vec_sim zero) h (wrel_empty _) hok
+
+/-- the same, read off slot by slot: client-visible elements `0 … size-1` equal the list -/
+theorem vector_view_eq (zero : α) (h : List (Op α)) (hok : AllOk (stdSpec zero) vecOk World.empty h) (k : Nat) :
+    ((run (vecImpl α) World.empty h).objs k).map Vec.view
+      = ((run (stdSpec zero) World.empty h).objs k).map (fun l => l.map some) := by
+  have := vector_refines_list zero h hok k
+  cases h1 : (run (vecImpl α) World.empty h).objs k <;> cases h2 : (run (stdSpec zero) World.empty h).objs k <;>
+    simp only [h1, h2, ORel] at this ⊢
+  · rfl
+  · simp [this.2]
+
+example : AllOk (stdSpec (0 : Int)) vecOk World.empty
+    [.ctor 0, .push 0 7, .push 0 8, .ctorV 1 [1, 2, 3], .assign 1 0, .resize 0 1, .write 1 1 5, .copy 2 1, .destroy 0] := by
+  simp [AllOk, vecOk, step, stdSpec, World.empty, World.put, Op.target]
+
+/-- `x = x` changes neither any object nor the ledger, in every state reachable without aliasing pushes -/
+theorem self_assign_noop (h : List (Op α)) (hok : ∀ op ∈ h, ledOk true op) (s : Nat) :
+    (∀ k, (step (vecImpl α) (run (vecImpl α) World.empty h) (.assign s s)).objs k
+            = (run (vecImpl α) World.empty h).objs k) ∧
+    (step (vecImpl α) (run (vecImpl α) World.empty h) (.assign s s)).led = (run (vecImpl α) World.empty h).led := by
+  have hw := run_linv (z := true) h (LInv.empty true) hok
+  generalize run (vecImpl α) World.empty h = w at hw ⊢
+  simp only [step]
+  cases hx : w.objs s with
+  | none => simp
+  | some x =>
+    simp only [if_true, vecImpl, Vec.assignSelf_eq x w.led (hw.objInv s x hx), World.put]
+    refine ⟨?_, trivial⟩
+    intro k
+    by_cases hk : k = s
+    · simp [hk, hx]
+    · simp [hk]
+
+/-- nothing is freed twice and only blocks that were handed out are freed -/
+theorem no_double_free (h : List (Op α)) (hok : ∀ op ∈ h, ledOk true op) :
+    (run (vecImpl α) World.empty h).led.freed.Nodup ∧
+    ∀ b ∈ (run (vecImpl α) World.empty h).led.freed, b < (run (vecImpl α) World.empty h).led.allocs :=
+  let hw := run_linv (z := true) h (LInv.empty true) hok
+  ⟨hw.freedNodup, hw.freedLt⟩
+
+/-- no buffer cell outside the allocated block is touched, no freed block is read -/
+theorem no_oob (h : List (Op α)) (hok : ∀ op ∈ h, ledOk true op) :
+    (run (vecImpl α) World.empty h).led.events = [] :=
+  (run_linv (z := true) h (LInv.empty true) hok).noEvents
+
+/-- live objects never share a block -/
+theorem no_shared_block (h : List (Op α)) (hok : ∀ op ∈ h, ledOk true op) (k1 k2 : Nat) (x1 x2 : Vec α) (p : Nat)
+    (hne : k1 ≠ k2) (h1 : (run (vecImpl α) World.empty h).objs k1 = some x1)
+    (h2 : (run (vecImpl α) World.empty h).objs k2 = some x2) (hp : x1.blk = some p) : x2.blk ≠ some p :=
+  (run_linv (z := true) h (LInv.empty true) hok).distinct k1 k2 x1 x2 p hne h1 h2 hp
+
+/-- after destroying all objects every block handed out has been freed exactly once — for histories
+    without `vector(0)` (and without aliasing pushes) -/
+theorem no_leak (h : List (Op α)) (hok : ∀ op ∈ h, ledOk false op)
+    (hdead : ∀ k, (run (vecImpl α) World.empty h).objs k = none) :
+    (run (vecImpl α) World.empty h).led.lost = [] ∧
+    (∀ b, b < (run (vecImpl α) World.empty h).led.allocs ↔ b ∈ (run (vecImpl α) World.empty h).led.freed) ∧
+    (run (vecImpl α) World.empty h).led.freed.Nodup ∧
+    (run (vecImpl α) World.empty h).led.freed.length = (run (vecImpl α) World.empty h).led.allocs := by
+  have hw := run_linv (z := false) h (LInv.empty false) hok
+  generalize run (vecImpl α) World.empty h = w at hw hdead ⊢
+  have hl := hw.lostNil rfl
+  have hiff : ∀ b, b < w.led.allocs ↔ b ∈ w.led.freed := by
+    intro b
+    constructor
+    · intro hb
+      rcases hw.accounted b hb with h | h | ⟨k, x, hx, _⟩
+      · exact h
+      · rw [hl] at h; cases h
+      · rw [hdead k] at hx; cases hx
+    · exact hw.freedLt b
+  refine ⟨hl, hiff, hw.freedNodup, ?_⟩
+  have : w.led.freed.Perm (List.range w.led.allocs) :=
+    (List.perm_ext_iff_of_nodup hw.freedNodup List.nodup_range).mpr (by intro a; simp [← hiff])
+  simpa using this.length_eq
+
+example : (∀ op ∈ ([.ctor 0, .ctorN 1 3, .push 0 7, .copy 2 0, .resize 2 9, .assign 1 2, .destroy 0, .destroy 1, .destroy 2] : List (Op Int)),
+    ledOk false op) := by simp [ledOk]
+
+/-! #### defects of the unchanged tree (the model mirrors them; the reference does not) -/
+
+def viewOf (w : World (Vec Int)) (k : Nat) : Option (List (Cell Int)) := (w.objs k).map Vec.view
+def specOf (w : World (List Int)) (k : Nat) : Option (List (Cell Int)) := (w.objs k).map (fun l => l.map some)
+
+/-- shrink-then-grow keeps the stale values where `std::vector` value-initialises -/
+theorem vector_resize_stale_counterexample :
+    let h : List (Op Int) := [.ctor 0, .push 0 1, .push 0 2, .push 0 3, .resize 0 1, .resize 0 3]
+    viewOf (run (vecImpl Int) World.empty h) 0 = some [some 1, some 2, some 3] ∧
+    specOf (run (stdSpec 0) World.empty h) 0 = some [some 1, some 0, some 0] := by decide
+
+/-- `vector(3)` holds three indeterminate elements where `std::vector(3)` holds zeros -/
+theorem vector_sized_uninit_counterexample :
+    let h : List (Op Int) := [.ctorN 0 3]
+    viewOf (run (vecImpl Int) World.empty h) 0 = some [none, none, none] ∧
+    specOf (run (stdSpec 0) World.empty h) 0 = some [some 0, some 0, some 0] := by decide
+
+/-- `vector(0)` then destruction: the `malloc(0)` block is never freed -/
+theorem vector_zero_leak_counterexample :
+    let w := run (vecImpl Int) World.empty [.ctorN 0 0, .destroy 0]
+    w.led.allocs = 1 ∧ w.led.freed = [] ∧ w.led.lost = [0] := by decide
+
+/-- `x.push_back(x[0])` on a full vector reads the freed block -/
+theorem vector_alias_push_counterexample :
+    let h : List (Op Int) := [.ctor 0, .push 0 10, .push 0 11, .push 0 12, .push 0 13, .pushAt 0 0]
+    viewOf (run (vecImpl Int) World.empty h) 0 = some [some 10, some 11, some 12, some 13, none] ∧
+    (run (vecImpl Int) World.empty h).led.events = [.uaf] ∧
+    specOf (run (stdSpec 0) World.empty h) 0 = some [some 10, some 11, some 12, some 13, some 10] := by decide
 
 end NmVerif.Props.C19
